@@ -1116,6 +1116,113 @@ def g5_group_compat_laws(F, r):
         r.fail("Group: other tours", "the scan over other tours no longer excludes the tour itself with `!=` or no longer tests `contains(group)`", F.loc(m))
 
 
+LR = "vrp_core::construction::features::locked_jobs::Rule::"
+
+
+def l2_lock_rule_laws(F, r):
+    """relation pinning with strict order: a job outside the locked sequence may be inserted between prev and next only where it neither splits the sequence
+    nor detaches it from its anchor (departure / arrival); jobs of the sequence itself are never blocked. Finite evaluation of Rule::can_insert over the presence
+    and membership of job / prev / next, equality with the first / last job of the sequence, and the four lock positions."""
+    from .. import ordeval as oe
+    ci = LR + "can_insert"
+    if ci not in F.fns:
+        raise AnchorError(ci)
+    pos_adt = [a for a in F.adts if a.endswith("::LockPosition")]
+    if len(pos_adt) != 1:
+        raise AnchorError("LockPosition")
+    variants = [v["n"] for v in F.adts[pos_adt[0]]["v"]]
+    inline = {i for i in F.fns if i.startswith(LR) and "{" not in i and i not in (ci, LR + "contains")}
+
+    def contains(i_, a, h, rl):
+        x = oe.strip_refs(a[1])
+        name = x[1] if x and x[0] == "sym" else str(x)
+        key = ("contains", name)
+        if key not in h:
+            c = i_._choose(2, "contains:" + name)
+            h[key] = ("bool", bool(c))
+            i_._assump.append(("contains", name, bool(c)))
+        return h[key]
+    total = 0
+    bad = {}
+    for k, vname in enumerate(variants):
+        it = oe.Interp(F, ci, {1: oe.ref(oe.sym("self")), 2: oe.ref(oe.sym("job")), 3: oe.ref(oe.sym("prev")), 4: oe.ref(oe.sym("next"))}, variants={"self.position": k},
+                       fresh=True, enum_results=True, inline=inline, call_models={"Rule::contains": contains}, max_steps=6000)
+        try:
+            paths = it.explore(max_paths=8000)
+        except oe.Undecided as e:
+            r.fail(f"Rule::can_insert [{vname}]", f"not evaluable: {e}", F.loc(ci))
+            continue
+        for p in paths:
+            total += 1
+            A = p.assumptions
+            if any(a[0] == "callret" for a in A):
+                bad.setdefault("undetermined", f"[{vname}] a sub-predicate was not interpreted ({[a[3].split('::')[-1] for a in A if a[0] == 'callret'][:2]})")
+                continue
+            pres = {a[1]: a[2] for a in A if a[0] == "optional"}
+            mem = {a[1].split(".")[0]: a[2] for a in A if a[0] == "contains"}
+            eq = {}
+            for a in A:
+                if len(a) == 3 and isinstance(a[2], str) and a[0] not in ("switch", "optional", "contains") and a[2] in "LEG":
+                    x, y = (a[0], a[1]) if a[0].split(".")[0] in ("prev", "next") else (a[1], a[0])
+                    eq[(x.split(".")[0], y.split(".")[-1])] = a[2] == "E"
+            J = pres.get("job") and mem.get("job")
+            Pin = bool(pres.get("prev") and mem.get("prev"))
+            Nin = bool(pres.get("next") and mem.get("next"))
+            Plast, Nfirst = eq.get(("prev", "last")), eq.get(("next", "first"))
+            ret = p.ret[1] if p.ret and p.ret[0] == "bool" else None
+            if ret is None:
+                bad.setdefault("verdict", f"[{vname}] unrecognised result {p.ret}")
+                continue
+
+            def need(cond, want, law):
+                if cond and ret != want:
+                    bad.setdefault(law + f" [{vname}]", law)
+            known_p, known_n = "prev" in pres, "next" in pres
+            need(J is True, True, "a job of the locked sequence itself is blocked")
+            if J:
+                continue
+            if "job" in pres and ("job" not in mem and pres["job"]):
+                continue
+            need(vname == "Fixed", False, "a foreign job is admitted into a tour holding a FIXED sequence position")
+            need(Pin and Nin, False, "a foreign job is admitted BETWEEN two jobs of the locked sequence (contiguity broken)")
+            need(Pin and Plast is False and known_n and not Nin, False, "a foreign job is admitted right after a sequence job that is not the last one")
+            need(Nin and Nfirst is False and known_p and not Pin, False, "a foreign job is admitted right before a sequence job that is not the first one")
+            need(vname == "Departure" and Nin and known_p and not Pin, False, "a foreign job is admitted BEFORE a sequence anchored to the departure")
+            need(vname == "Arrival" and Pin and known_n and not Nin, False, "a foreign job is admitted AFTER a sequence anchored to the arrival")
+            if vname in ("Any", "Departure") and Pin and known_n and not Nin and Plast is None:
+                bad.setdefault(f"prev vs last [{vname}]", "a neighbour position right after a sequence job is decided without testing that this job is the LAST of the sequence")
+            if vname in ("Any", "Arrival") and Nin and known_p and not Pin and Nfirst is None:
+                bad.setdefault(f"next vs first [{vname}]", "a neighbour position right before a sequence job is decided without testing that this job is the FIRST of the sequence")
+            need(vname == "Any" and pres.get("prev") and pres.get("next") and not Pin and not Nin, True, "a foreign job is blocked although neither neighbour belongs to the sequence")
+            need(vname in ("Any", "Departure") and Pin and Plast is True and known_n and not Nin, True, "a foreign job is blocked right after the LAST job of the sequence")
+            need(vname in ("Any", "Arrival") and Nin and Nfirst is True and known_p and not Pin, True, "a foreign job is blocked right before the FIRST job of the sequence")
+    for k, msg in sorted(bad.items()):
+        r.fail("Rule::can_insert: " + k, msg, F.loc(ci))
+    if not bad:
+        r.ok("Rule::can_insert", f"{total} combinations over {len(variants)} positions: contiguity and departure/arrival anchoring hold, sequence jobs are never blocked")
+    if total < 40:
+        r.fail("Rule::can_insert: coverage", f"only {total} combinations explored", F.loc(ci))
+    # vehicle pinning
+    er = [i for i in F.fns if i.endswith("LockingConstraint::evaluate_route")]
+    if len(er) != 1:
+        raise AnchorError("LockingConstraint::evaluate_route")
+    it = oe.Interp(F, er[0], {1: oe.ref(oe.sym("self")), 2: oe.ref(oe.sym("route_ctx")), 3: oe.ref(oe.sym("job"))}, fresh=True, enum_results=True,
+                   call_models={"ConstraintViolation::fail": _verdict("fail"), "ConstraintViolation::skip": _verdict("skip"),
+                                "HashMap::<K, V, S, A>::get": lambda i_, a, h, rl: oe.some(oe.ref(oe.sym("condition"))),
+                                "HashMap::<K, V, S>::get": lambda i_, a, h, rl: oe.some(oe.ref(oe.sym("condition")))})
+    try:
+        for p in it.explore():
+            cond = [a[2] for a in p.assumptions if a[0] == "callret" and a[3] and a[3].endswith("Fn::call")]
+            if not cond:
+                r.fail("LockingConstraint::evaluate_route", "the lock's vehicle condition is not consulted for a locked job", F.loc(er[0]))
+            elif (p.ret == oe.NONE) == bool(cond[0]):
+                r.ok(f"LockingConstraint::evaluate_route [condition={cond[0]}]", "admitted" if cond[0] else "rejected")
+            else:
+                r.fail(f"LockingConstraint::evaluate_route [condition={cond[0]}]", "a job locked to a vehicle is admitted to a tour of another vehicle (or rejected on its own)", F.loc(er[0]))
+    except oe.Undecided as e:
+        r.fail("LockingConstraint::evaluate_route", f"not evaluable: {e}", F.loc(er[0]))
+
+
 CAP_NAMES = ("capacity", "available", "resource_available", "resources", "resource_capacity")
 
 
@@ -1518,6 +1625,7 @@ def run(ctx):
     ctx.run("C01-Q1", "no comparison in constraint code relates a value to itself (a constant guard)", q1_no_self_comparison, floor=1)
     from .common import operator_agreement
     ctx.run("C01-O2", "load / cost / statistic operators: every impl Add/Sub/Mul computes with its own operator family", operator_agreement, floor=8)
+    ctx.run("C01-L2", "relation pinning: contiguity, departure/arrival anchoring and vehicle pinning laws (finite evaluation of Rule::can_insert / evaluate_route)", l2_lock_rule_laws, floor=2)
     ctx.run("C01-G5", "compatibility / group admission laws (finite evaluation of the evaluate functions)", g5_group_compat_laws, floor=10)
     ctx.run("C01-C1", "capacity: demand parts tested against their own load summaries; violation iff some load does not fit; abort only for static delivery", c1_capacity_law, floor=5)
     ctx.run("C01-W1", "time windows: admitted iff no arrival after its latest time and the shift covers the windows; fail only on target-independent facts (finite evaluation)", w1_time_window_law, floor=1)
